@@ -204,8 +204,8 @@ def conclude(pid, tier, seed, prop, reg, funcs, all_obs, results, texts, native,
         checker_errors.append(f'{len(disagreements)} back-end disagreements')
     for r in funcs:
         if r.status == 'ok' and r.outcomes.get('return', 0) == 0 and not any(o.startswith('raise') for o in r.outcomes) \
-                and not any(k.startswith('end') for k in r.outcomes):
-            checker_errors.append(f'{r.target}: no path reaches an exit (contradictory preconditions?)')
+                and not any(k.startswith('end') and 'no feasible branch' not in k for k in r.outcomes):
+            checker_errors.append(f'{r.target}[{r.variant}]: no path reaches an exit (contradictory preconditions?)')
     for tv, n in native_cover.items():
         if n == 0 and not native.get(tv, {}).get('error'):
             checker_errors.append(f'{tv[0]}[{tv[1]}]: native generator produced no input satisfying requires (vacuous cover)')
